@@ -111,7 +111,7 @@ def build_all(models=None, targets=None, jobs=16):
         # targets=None: the full development (setup); otherwise only what the property needs, so that a
         # half-edited file of another property cannot break this one
         tg = "" if targets is None else " ".join(targets)
-        rc, o = sh("timeout 3000 make -j%d %s 2>&1" % (jobs, tg), 3100, cwd=COQ)
+        rc, o = sh("timeout 1500 make -j%d %s 2>&1" % (jobs, tg), 1600, cwd=COQ)
         if rc:
             raise CheckAbort("coq build failed:\n" + o[-4000:])
         exs = sorted(glob.glob(os.path.join(COQ, "Run", "Ex*.v")))
@@ -122,7 +122,7 @@ def build_all(models=None, targets=None, jobs=16):
             exe = os.path.join(OUT, "run_" + name)
             if targets is not None:   # make sure the model the Ex file needs is compiled
                 need = re.findall(r"\b(Model\.\w+|Base\.\w+)", open(ex).read())
-                rc, o = sh("timeout 3000 make -j%d %s 2>&1" % (jobs, " ".join(n.replace(".", "/") + ".vo" for n in need)), 3100, cwd=COQ)
+                rc, o = sh("timeout 1500 make -j%d %s 2>&1" % (jobs, " ".join(n.replace(".", "/") + ".vo" for n in need)), 1600, cwd=COQ)
                 if rc:
                     raise CheckAbort("coq build of %s failed:\n%s" % (need, o[-4000:]))
             deps = [ex, os.path.join(COQ, "Run", "driver.ml")] + [os.path.join(COQ, f[:-2] + ".vo") for f in files if f.startswith(("Model", "Base"))]
